@@ -121,6 +121,10 @@ pub trait Peer: Send {
     /// next delimiter-terminated client message
     fn read_message(&mut self, timeout: Duration) -> Option<String>;
     fn close(&mut self, kind: CloseKind);
+    /// close the sending direction only, keep the connection, read nothing from now on
+    fn half_close_and_stop_reading(&mut self) {
+        self.close(CloseKind::Clean);
+    }
     /// true when the transport lets the harness verify read segmentation through the tap
     fn tapped(&self) -> bool;
 }
@@ -237,6 +241,15 @@ impl Peer for TlsPeer {
         drop(stream);
     }
 
+    fn half_close_and_stop_reading(&mut self) {
+        if let Some(stream) = self.stream.as_mut() {
+            stream.conn.send_close_notify();
+            _ = stream.conn.complete_io(&mut stream.sock);
+            _ = stream.sock.shutdown(Shutdown::Write);
+            // the socket stays open and is never read again
+        }
+    }
+
     fn tapped(&self) -> bool {
         true
     }
@@ -296,6 +309,9 @@ impl Peer for LocalPeer {
                 }
             }
         }
+    }
+    fn half_close_and_stop_reading(&mut self) {
+        _ = self.conn.control(6);
     }
     fn tapped(&self) -> bool {
         true
